@@ -9,9 +9,10 @@ static int g_deep, g_strat = -1, g_sliver, g_sliver_n;
 int gen_dim(rng_t *r, int maxd) {
   if (maxd < 1) maxd = 1;
   if (g_sliver) { /* tiny, huge, tiny, ... : (tiny x huge), (huge x tiny) products, flat eliminations, thin triangular solves */
-    int huge = (g_sliver_n++ & 1) == (g_sliver - 1);
-    if (huge) return 20000 + (int)rng_below(r, 6000);
-    return 1 + (int)rng_below(r, 4);
+    int pos = g_sliver_n++;
+    int huge = g_sliver == 3 ? pos == 2 : (pos & 1) == (g_sliver - 1);
+    if (huge) return rng_chance(r, 1, 3) ? 65400 + (int)rng_below(r, 4600) : 20000 + (int)rng_below(r, 6000); /* beyond 2 * L2/64 words of the smallest L2 now and then */
+    return rng_chance(r, 1, 3) ? 16 + (int)rng_below(r, 6) : 1 + (int)rng_below(r, 4); /* 16 and more rows: the M4RM code proper instead of its fallback to the naive product */
   }
   if (g_deep && maxd >= 200 && rng_below(r, 4) != 0) return 257 + (int)rng_below(r, 330); /* beyond the 256 of the smallest __M4RI_MUL_BLOCKSIZE */
   int d;
@@ -108,8 +109,9 @@ int gen_case(rng_t *r, const char *op, const genopt_t *g, sbuf_t *o, int rb, int
   if (g->sliver) for (int i = 0; flat_ok[i]; i++) if (!strcmp(op, flat_ok[i])) g_sliver = g->sliver;
   if (g_sliver == 1 && (strstr(op, "mul") || !strncmp(op, "trsm", 4) || strstr(op, "solve") || !strcmp(op, "concat") || !strcmp(op, "stack") || !strcmp(op, "submatrix")))
     g_sliver = 2; /* operations with three dimensions (or a square operand first): tiny first, so that no huge x huge object arises */
+  if (g_sliver && strstr(op, "mul") && rng_chance(r, 1, 2)) g_sliver = 3; /* products: (tiny x tiny) times (tiny x huge) - a very wide right factor */
   genopt_t gg = *g;
-  if (g_sliver) { gg.deep = 0; g_deep = 0; gg.maxdim = 30000; }
+  if (g_sliver) { gg.deep = 0; g_deep = 0; gg.maxdim = 70000; }
   int rc = gen_case_inner(r, op, &gg, o, rb, pb);
   g_deep = 0; g_strat = -1; g_sliver = 0;
   return rc;
@@ -131,6 +133,12 @@ static int gen_case_inner(rng_t *r, const char *op, const genopt_t *g, sbuf_t *o
     else if (need_c && !(IS("addmul_m4rm") || IS("addmul") || IS("addmul_mp"))) supplied = 1;
     else if (need_c) supplied = rng_chance(r, 3, 4);
     if (supplied) emit_mat(r, o, rb, m, n, (need_c && !IS("mul_va")) ? "rand" : "junk", 128); /* _mzd_mul_va is called with clear = 1: C is pure output */
+    if (IS("djb")) { /* mode bit 0: compile the operand itself (it may be a view) instead of a copy; bit 1: the output matrix is supplied and holds other data */
+      int mode = (int)rng_below(r, 4);
+      if (mode & 2) emit_mat(r, o, rb, m, n, "junk", 128);
+      sb_printf(o, "op djb %d %d %d %d\n", rb, rb + 1, rb + 2, mode);
+      return 3;
+    }
     if (IS("mul_m4rm") || IS("addmul_m4rm")) sb_printf(o, "op %s %d %d %d %d\n", op, rb, rb + 1, rb + 2, (int)rng_below(r, 9));
     else if (IS("mul") || IS("addmul") || IS("mul_mp") || IS("addmul_mp")) sb_printf(o, "op %s %d %d %d %ld\n", op, rb, rb + 1, rb + 2, pick_cutoff(r, m, l, n));
     else sb_printf(o, "op %s %d %d %d\n", op, rb, rb + 1, rb + 2);
@@ -295,6 +303,13 @@ static int gen_case_inner(rng_t *r, const char *op, const genopt_t *g, sbuf_t *o
     emit_mat(r, o, rb, m, n, "rand", 128);
     sb_printf(o, "op set_ui %d %d\n", rb, (int)rng_below(r, 2));
     return 1;
+  }
+  if (IS("cmp") && rng_chance(r, 1, 2)) { /* observers on operands with all-zero rows at the bottom, narrow ones included, owned or views */
+    int m = 2 + gen_dim(r, D > 200 ? 200 : D), n = rng_chance(r, 1, 2) ? 1 + (int)rng_below(r, 64) : gen_dim(r, D);
+    emit_mat(r, o, rb, m, n, "sparse", 1 + (long)rng_below(r, 5));
+    emit_mat(r, o, rb + 1, m, n, "zero", 0);
+    sb_printf(o, "op cmp %d %d\n", rb, rb + 1);
+    return 2;
   }
   if (IS("cmp")) {
     int m = gen_dim(r, D), n = gen_dim(r, D);
